@@ -334,3 +334,33 @@ Proof.
   destruct (i1_odd _ (inv_1 _ I') X) as (v & thv & Gv & Ov).
   specialize (Hnone v). unfold holds in Hnone. rewrite Gv in Hnone. congruence.
 Qed.
+
+(** lock bit = number of owners <= 1; owner-only program points *)
+Theorem owner_unique s : freach s ->
+  (forall u v, holds s u = true -> holds s v = true -> u = v) /\
+  (Z.odd (mword s) = true <-> exists u, holds s u = true) /\
+  (forall t th, get_thread s t = Some th -> needown (main th) = true -> own th = true).
+Proof.
+  intros Hr. pose proof (Inv_reach _ Hr) as I. split; [|split].
+  - intros u v A B. symmetry. eapply holder_unique; eauto.
+  - split.
+    + intros O. destruct (i1_odd _ (inv_1 _ I) O) as (u & thu & G & Ou). exists u. apply holds_get. eauto.
+    + intros (u & Hu). apply holds_get in Hu. destruct Hu as (thu & G & Ou).
+      destruct (Z.odd (mword s)) eqn:E; [reflexivity|]. pose proof (i1_even _ (inv_1 _ I) E _ _ G). congruence.
+  - intros t th G N. apply (t1_need _ (i1_thr _ (inv_1 _ I) _ _ G) N).
+Qed.
+
+Lemma fewl_path_closed_reach s t th st u e s' :
+  freach s -> get_thread s t = Some th -> fewl_pc st (main th) -> fstep s (u, e) = Some s' ->
+  exists th', get_thread s' t = Some th' /\
+    (fewl_pc st (main th') \/ (u = t /\ e = ETick /\ main th = FeRead st /\ festat s = st /\ main th' = Done 0)).
+Proof. intros Hr. apply fewl_path_closed. apply Inv_reach. exact Hr. Qed.
+
+Lemma mark_never_stuck_reach s t th :
+  freach s -> get_thread s t = Some th -> fems_pc (main th) -> exists s', fstep s (t, ETick) = Some s'.
+Proof. intros Hr. apply mark_never_stuck. apply Inv_reach. exact Hr. Qed.
+
+Lemma status_written_by_owner_reach s u e s' :
+  freach s -> fstep s (u, e) = Some s' -> festat s' <> festat s ->
+  e = ETick /\ exists thu, get_thread s u = Some thu /\ main thu = FeWrite (festat s') /\ own thu = true.
+Proof. intros Hr. apply status_written_by_owner. apply Inv_reach. exact Hr. Qed.
